@@ -387,7 +387,8 @@ def check_c19(prop, tier, seed):
     v = Verdict(prop)
     t0 = time.time()
     jobs = [dict(name=n, specs=sps, depth=(5 if tier == "quick" else 6) if len(sps) == 2 else 5,
-                 max_schedules=((400 if tier == "quick" else 6000) if not n.startswith("large_")
+                 # (the monitor keeps every environment of a log: cost grows with the square of their number)
+                 max_schedules=((400 if tier == "quick" else 1200) if not n.startswith("large_")
                                 else (30 if tier == "quick" else 300))) for n, sps in pairs(tier)]
     with mp.get_context("fork").Pool(len(jobs)) as pool:
         results = pool.map(run_pair, jobs, chunksize=1)
